@@ -102,3 +102,7 @@ def aug_fn(s, k):
     t = k * s
     t += s
     return t
+
+
+def second(a, b):
+    return b + 0 * a
